@@ -37,7 +37,7 @@ def _derive(mod, fn, extra_pre, twin):
             for p in extra_pre:
                 out.append(f"{ind}pre: {p}")
             if twin:
-                ln = f"{ind}post: _ == 2"
+                ln = f"{ind}post: _ != 1"
             done = True
         out.append(ln)
     if not done:
